@@ -17,8 +17,9 @@ import (
 )
 
 // behaviours of one payload's application, encoded in the payload value "<beh>:<k>:<tag>"
-//   S  = write k keys, succeed          F = fail at once          WF = write k keys, then fail
-//   A  = write k keys, answer async     X = succeed but hand back the universal error sentinel as acknowledgement
+//
+//	S  = write k keys, succeed          F = fail at once          WF = write k keys, then fail
+//	A  = write k keys, answer async     X = succeed but hand back the universal error sentinel as acknowledgement
 var c10Behaviours = []string{"S", "F", "WF", "A", "X"}
 
 const c10Store = "gmp" // a watched store nobody else writes in this world: application state of the injected apps
